@@ -260,10 +260,57 @@ def work(chunk, points=None, tier='quick', quick_slice=0):
     return acc
 
 
+# -- the documented option richardson_terms (and its combination with a step ratio) ----------------------------------------
+# Closed forms; the allowance 1e-4 relative is far wider than what the unchanged tree does on these smooth functions
+# (worst observed 8e-7: forward, n = 2, order 1, ratio 4) and far narrower than a wrong extrapolation weight (a factor).
+RT_FUNS = {'exp(x/2)': (lambda x: np.exp(x / 2), lambda x, n: 0.5 ** n * math.exp(x / 2)),
+           'sin(x)': (np.sin, lambda x, n: math.sin(x + n * math.pi / 2))}
+
+
+def rterm_cases():
+    return [(fn, m, n, o, rt, ratio, x) for fn in sorted(RT_FUNS) for m in ('central', 'forward', 'backward', 'complex')
+            for n in (1, 2) for o in (1, 2, 3, 4) for rt in (1, 3) for ratio in (None, 1.6, 2, 4) for x in (0.3, 1.1)]
+
+
+def work_rterms(chunk):
+    import warnings
+    import numdifftools as nd
+    acc = fw.Acc()
+    for fn, m, n, o, rt, ratio, x in chunk:
+        f, ex = RT_FUNS[fn]
+        kw = dict(n=n, method=m, order=o, richardson_terms=rt)
+        if ratio is not None:
+            kw['step_ratio'] = ratio
+        case = ('rterms', fn, m, n, o, rt, ratio, x)
+        jc = dict(kind='rterms', f=fn, x=x, kw=dict(kw))
+        cell = 'richardson_terms=%d/%s' % (rt, 'default-ratio' if ratio is None else 'ratio-given')
+        with warnings.catch_warnings():
+            warnings.simplefilter('ignore')
+            try:
+                v = complex(np.asarray(nd.Derivative(f, **kw)(x)).ravel()[0])
+            except Exception as e:
+                if fw.library_origin(e) if hasattr(fw, 'library_origin') else True:
+                    acc.case(case, nontrivial=True, cell=cell, outcome='raised')
+                    acc.violation('C01:%s:richardson_terms:raised-%s' % (m, type(e).__name__), jc,
+                                  'Derivative(%s, **%r)(%r) raised %s: %s' % (fn, kw, x, type(e).__name__, e), n * 100 + o)
+                    continue
+                raise
+        exact = ex(x, n)
+        rel = abs(v - exact) / max(abs(exact), 1e-3)
+        acc.case(case, nontrivial=True, cell=cell, outcome=(m, n, rel <= 1e-4))
+        if not rel <= 1e-4:
+            acc.violation('C01:%s:richardson_terms=%d:n=%d:%s' % (m, rt, n, 'default-ratio' if ratio is None else 'ratio-given'), jc,
+                          'Derivative(%s, **%r)(%r) = %r, exact %r: relative error %.3g > 1e-4' % (fn, kw, x, v, exact, rel),
+                          n * 100 + o)
+    return acc
+
+
 def run(ctx):
     sp = specs(ctx)
     points = cm.quick_points(ctx) if ctx.quick else cm.POINTS
     acc = ctx.pmap(work, sp, chunk=1 if not ctx.quick else 2, points=points, tier=ctx.tier, quick_slice=ctx.seed % 4)
+    if not CALIBRATE:
+        acc.merge(ctx.pmap(work_rterms, rterm_cases(), chunk=64))
     for s in sp[:3] + sp[len(sp) // 2:len(sp) // 2 + 2] + sp[-2:]:
         acc.sample(dict(f=spec_show(s), points=points[:4], configs='all (method, n, order): %d' % len(cm.configs())))
     if CALIBRATE:
@@ -286,6 +333,14 @@ def run(ctx):
 
 
 def replay(case):
+    if case.get('kind') == 'rterms':
+        import numdifftools as nd
+        f, ex = RT_FUNS[case['f']]
+        v = complex(np.asarray(nd.Derivative(f, **case['kw'])(case['x'])).ravel()[0])
+        exact = ex(case['x'], case['kw']['n'])
+        rel = abs(v - exact) / max(abs(exact), 1e-3)
+        return rel <= 1e-4, 'Derivative(%s, **%r)(%r) = %r, exact %r, relative error %.3g (allowed 1e-4)' % (
+            case['f'], case['kw'], case['x'], v, exact, rel)
     spec = _tuplify(case['spec'])
     cfg = tuple(case['cfg'])
     gen = (case['gen'][0], case['gen'][1])
